@@ -964,6 +964,14 @@ CHECKS['C15']['note'] = CHECKS['C15']['note'] + (
     ' Further strata: memory layouts with layout independence, exhaustive coordinate-aliasing / ownership checks for callables '
     'returning a coordinate, every vectorisation route with a call history.')
 
+CHECKS['C20']['text'] = CHECKS['C20']['text'].replace('38 theorems.', '39 theorems.', 1) + (
+    ' pspace_element_cast_false: ProductSpace.element(cast=False) returns members and sequences of members of equal spaces '
+    'unchanged and agrees with cast=True apart from the TypeError branch.')
+CHECKS['C20']['note'] = CHECKS['C20']['note'] + (
+    ' History stream (chains of astype / real_space / complex_space over all dtypes compared with freshly built equal spaces) and '
+    'an options stream (every space kind x input kind x keyword option of element(): order, data_ptr, cast, equal-but-distinct '
+    'spaces, layouts) run in every tier.')
+
 NOT_YET = {}
 
 
